@@ -2,6 +2,7 @@
 
 kinds:  'events'  connect/disconnect/emit sequences on an EventHandler
         'cache'   operation sequences on CacheFile.open(...) incl. sub-caches, closing, real scheduler
+        'fstore'  load/save/delete/preload/subcontainer/close on a tree of PickleStorage containers (no thread)
         'sched'   ThreadedStorage + Worker with the worker schedule enforced from here: the disk
                   storage's load/save/delete are wrapped in gates, the queue is an instrumented
                   queue.Queue subclass that only *reports* (never changes) blocking of put/join.
@@ -162,6 +163,12 @@ def cache_op(caches, op):
             return ['none']
         if kind == 'close':
             c.close()
+            return ['none']
+        if kind == 's_close':           # ThreadedStorage.close() directly
+            c.long_term_storage.close()
+            return ['none']
+        if kind == 'exit':              # end of a `with` block
+            c.__exit__(None, None, None)
             return ['none']
         raise ValueError('unknown op %r' % (op,))
     except Exception as e:
@@ -326,6 +333,7 @@ class Control:
         self.permits = 0
         self.tasks_seen = []    # [kind, key] in the order the worker starts them
         self.worker_dead = False
+        self.in_close_join = False   # the caller sits in worker_thread.join() (Worker.__exit__, i.e. close())
 
 
 def gate_disk(disk, ctl, fail, patience=DEADLINE):
@@ -360,6 +368,15 @@ def run_sched_body(case, res):
     worker = Worker(max_queue_size=case['max_queue_size'])
     worker.tasks = ReportingQueue(case['max_queue_size'], ctl)
     worker.__enter__()
+    thread_join = worker.worker_thread.join
+
+    def reporting_join(timeout=None):      # only reports that the caller waits for the thread to end
+        ctl.in_close_join = True
+        try:
+            return thread_join(timeout)
+        finally:
+            ctl.in_close_join = False
+    worker.worker_thread.join = reporting_join
     storage = ThreadedStorage(worker, disk)
     storage._owns_resources = True
     cache = CacheFile(storage)
@@ -401,6 +418,8 @@ def run_sched_body(case, res):
             return False        # the failing task was started: settled only once the thread is gone
         if ctl.n_arrived > ctl.n_released:
             return True         # waits at a gate
+        if worker.exit.is_set():
+            return False        # close() was called or a task raised: settled only once the thread is gone
         # idle: everything that was put has been taken and finished, nothing is on its way to a gate
         return sn['len'] == 0 and sn['got'] == sn['put'] and sn['done'] == sn['got'] and ctl.n_arrived == ctl.n_released
 
@@ -409,6 +428,8 @@ def run_sched_body(case, res):
             return False
         if ctl.caller in ('idle', 'done'):
             return True
+        if ctl.in_close_join:   # close(): blocked as long as the worker waits at a gate
+            return worker.worker_thread.is_alive() and ctl.n_arrived > ctl.n_released
         if not worker.worker_thread.is_alive() or worker.exit.is_set():
             return False        # every blocking call must raise now
         if sn['putting'] and sn['full']:
@@ -434,6 +455,8 @@ def run_sched_body(case, res):
                 ctl.cv.wait(0.0005)
 
     def blocked_kind():
+        if ctl.in_close_join:
+            return 'close'
         sn = q.snapshot()
         return 'put' if sn['putting'] else ('join' if sn['joining'] else '?')
 
@@ -499,6 +522,22 @@ def run_sched_body(case, res):
         res['loaded_end'] = sorted(int(k[1:]) for k in storage._loaded)
         res['waiting_end'] = sorted(int(k[1:]) for k in storage._waiting_for_load)
         res['worker_alive_end'] = worker.worker_thread.is_alive()
+        res['opened_end'] = bool(storage._opened)
+        res['disk_opened_end'] = bool(disk._opened)
+        res['exit_set_end'] = worker.exit.is_set()
+        res['dir_exists_end'] = os.path.isdir(str(disk.directory)) if hasattr(disk, 'directory') else None
+        if res['dir_exists_end']:       # content of the disk, read from outside (not through the gated load)
+            import pickle
+            content = []
+            for fn in sorted(os.listdir(str(disk.directory))):
+                if fn.startswith('k') and fn.endswith('.pkl'):
+                    with open(os.path.join(str(disk.directory), fn), 'rb') as f:
+                        content.append([int(fn[1:-4]), canon(pickle.load(f))])
+                else:
+                    content.append([-1, fn])
+            res['disk_end'] = sorted(content, key=lambda x: x[0])
+        else:
+            res['disk_end'] = []
     finally:
         with ctl.cv:      # open every gate so that nothing stays blocked
             ctl.n_released += 10 ** 6
@@ -514,6 +553,72 @@ def run_sched_body(case, res):
         res['leftover'] = sorted(os.listdir(tmp))
         shutil.rmtree(tmp, ignore_errors=True)
     res['done'] = True
+
+
+# ---------------------------------------------------------------------------------------
+# file-backed storage with sub-containers, no thread
+# ---------------------------------------------------------------------------------------
+
+def run_fstore(case):
+    """ops: [kind, path, ...] on a PickleStorage tree; path = list of sub-container numbers from the top"""
+    import pickle
+    from tenpy.tools.cache import Storage
+    from tenpy.tools.misc import find_subclass
+    tmp = tempfile.mkdtemp(prefix='c20f_', dir=os.environ.get('C20_TMP'))
+    res = {'out': []}
+    try:
+        root = find_subclass(Storage, case['storage']).open(tmpdir=tmp)
+        conts = [((), root)]
+        byp = {(): root}
+        for op in case['ops']:
+            kind, path = op[0], tuple(op[1])
+            c = byp[path]
+            try:
+                if kind == 'load':
+                    o = ['val', canon(c.load(key(op[2])))]
+                elif kind == 'save':
+                    c.save(key(op[2]), op[3])
+                    o = ['none']
+                elif kind == 'delete':
+                    c.delete(key(op[2]))
+                    o = ['none']
+                elif kind == 'preload':
+                    c.preload(key(op[2]))
+                    o = ['none']
+                elif kind == 'sub':
+                    sub = c.subcontainer('s%d' % op[2])
+                    byp[path + (op[2],)] = sub
+                    conts.append((path + (op[2],), sub))
+                    o = ['none']
+                elif kind == 'close':
+                    c.close()
+                    o = ['none']
+                else:
+                    raise RuntimeError('unknown op %r' % (op,))
+            except Exception as e:
+                o = ['exc', type(e).__name__, str(e)[:80]]
+            res['out'].append(o)
+        final = []
+        for path, c in conts:
+            d = str(c.directory)
+            files = []
+            if os.path.isdir(d):
+                for fn in sorted(os.listdir(d)):
+                    if fn.endswith('.pkl'):
+                        with open(os.path.join(d, fn), 'rb') as f:
+                            files.append([int(fn[1:-4]), canon(pickle.load(f))])
+            final.append([list(path), bool(c._opened), sorted(files)])
+        res['final'] = final
+        try:
+            root.close()
+            res['final_close'] = 'ok'
+        except Exception as e:
+            res['final_close'] = type(e).__name__
+        res['leftover'] = sorted(os.listdir(tmp))
+        res['done'] = True
+    finally:
+        shutil.rmtree(tmp, ignore_errors=True)
+    return res
 
 
 # ---------------------------------------------------------------------------------------
@@ -533,6 +638,12 @@ def main():
         for i, c in enumerate(cases):
             try:
                 res[i] = run_events(c)
+            except Exception:
+                res[i] = {'runner_error': traceback.format_exc()[-1200:]}
+    elif kind == 'fstore':
+        for i, c in enumerate(cases):
+            try:
+                res[i] = run_fstore(c)
             except Exception:
                 res[i] = {'runner_error': traceback.format_exc()[-1200:]}
     else:
